@@ -350,7 +350,7 @@ def run(tier, seed, t0):
     # (clear_with yields the newest storage block first, so timestamps within one drain are not monotone)
     try:
         import c15
-        for k, batch, nb in ([(3, True, 2)] if tier == "quick" else [(3, True, 2), (4, True, 3), (3, False, 2)]):
+        for k, batch, nb in ([(3, True, 2)] if tier == "quick" else [(3, True, 2), (3, True, 3), (3, False, 2)]):
             c15.rolling_window(e3, k, batch, nb, ordered=False)
     except _e3.ENC_ERRORS as ex:
         e3.error("c15_window_anyorder", "MIR->SMT encoding of Distribution::record_samples / RollingSummary", ex)
